@@ -317,6 +317,10 @@ SAN_ENV = {
 def classify_crash(stderr, rc):
     """map a sanitizer report / signal onto the model's fault names"""
     s = stderr
+    ma = re.search(r'FATAL:\s+ASSERT failed(?: in (\w+)\(\))? at ([\w./-]+):(\d+):\s+(.*)', s)
+    if ma and rc in (255, -1):
+        # the library's own fatal-error path (libast_fatal_error -> exit(-1)) taken by a failed ASSERT
+        return 'FAULT:fatal-assert:%s:%s' % (ma.group(1) or '?', ma.group(4).strip()[:120])
     m = re.search(r'AddressSanitizer: ([\w-]+)', s)
     if m:
         kind = m.group(1)
@@ -344,7 +348,7 @@ def classify_crash(stderr, rc):
     return 'FAULT:exit:%d' % rc
 
 
-def run_cases(exe, cases_path, ncases, env=None, timeout_per_run=120, args=(), max_faults=150):
+def run_cases(exe, cases_path, ncases, env=None, timeout_per_run=120, args=(), max_faults=150, stderr_file=None):
     """Run an executable over a case file; returns list of result strings indexed by case.
     A crash / hang at case k is recorded as a FAULT:... result and the run resumes at k+1."""
     results = [None] * ncases
@@ -356,7 +360,22 @@ def run_cases(exe, cases_path, ncases, env=None, timeout_per_run=120, args=(), m
     guard = 0
     while start < ncases:
         guard += 1
-        rc, o, err = sh([exe, cases_path, str(start)] + list(args), env=e, timeout=timeout_per_run)
+        if stderr_file:
+            # noisy runs (debug traces): stderr goes to a file and only its tail is read
+            with open(stderr_file, 'wb') as ef:
+                try:
+                    p = subprocess.run([exe, cases_path, str(start)] + list(args), env=dict(os.environ, **e), timeout=timeout_per_run,
+                                       stdout=subprocess.PIPE, stderr=ef)
+                    rc, o = p.returncode, p.stdout.decode(errors='replace')
+                except subprocess.TimeoutExpired as ex:
+                    rc, o = -9, (ex.stdout or b'').decode(errors='replace')
+            with open(stderr_file, 'rb') as ef:
+                ef.seek(0, 2)
+                size = ef.tell()
+                ef.seek(max(0, size - 200000))
+                err = ef.read().decode(errors='replace')
+        else:
+            rc, o, err = sh([exe, cases_path, str(start)] + list(args), env=e, timeout=timeout_per_run)
         last = None
         for line in o.split('\n'):
             if line.startswith('#'):
@@ -397,6 +416,19 @@ def run_model(exe, cases_path, ncases, timeout=600):
             if k < ncases:
                 results[k] = line[sp + 1:]
     return results, (rc, e)
+
+
+# ASSERTs that are fatal by design at runtime debug level >= 1 (property C16/C20): a NULL object or
+# pointer argument, and the few documented programming-error checks of the unchanged library
+# (grep ASSERT src/*.c: descriptor >= 0 in the *_init_from_fd readers, len > 0 in spiftool_temp_file,
+# the X11 trackers).  Any OTHER assertion that fires on a generated input under the debug-level pass
+# ends the process where the property promises a result, and is reported.
+ASSERT_BY_DESIGN = re.compile(r'ISNULL|!=\s*(\([^)]*\)\s*)?NULL|!=\s*None\b|^\(?fd >= 0\)?$|^len > 0$|^\(?s|str|self|buff?|ptr|obj|item|key|value|other|data|path|file|list|fp\)?\s*!=')
+
+
+def assert_by_design(result):
+    m = re.match(r'FAULT:fatal-assert:[^:]*:(.*)', result or '')
+    return bool(m and ASSERT_BY_DESIGN.search(m.group(1)))
 
 
 # --------------------------------------------------------------------------------------
@@ -652,6 +684,8 @@ def run_check(chk, argv):
         with open(replay) as f:
             payload = json.load(f)
         cases = payload.get('cases') or [payload['case']]
+        if payload.get('env'):
+            os.environ.update(payload['env'])       # the environment pass the failure was seen under
         mouts, iouts, det = run_pair(chk, model_exe, impl_exe, cases, 'replay')
         for c, m, i in zip(cases, mouts, iouts):
             print('case : %s\nmodel: %s\nimpl : %s' % (c, m, i))
@@ -701,6 +735,56 @@ def run_check(chk, argv):
     for k in range(0, len(cases), step)[:3]:
         samples.append(dict(case=cases[k], model=(mouts[k] if mouts else None), impl=(iouts[k] if iouts else None)))
     cov['samples'] = samples
+    # ---- 4b: environment passes: a sample of the same cases at runtime debug level 4 and with a stale errno;
+    #          neither may change anything the model (= the ideal object) predicts
+    if model_exe and cases and getattr(chk, 'env_passes', True):
+        nmax = 2500 if tier == 'quick' else 12000
+        step_e = max(1, len(cases) // nmax)
+        idx = sorted(set(list(range(0, min(ncorpus, len(cases)))) + list(range(0, len(cases), step_e))))
+        sub = [cases[k] for k in idx]
+        work = os.path.join(BUILD, 'work', chk.id.lower())
+        spath = os.path.join(work, 'cases-env-%d.txt' % os.getpid())
+        with open(spath, 'w') as f:
+            for c in sub:
+                f.write(c + '\n')
+        # debug level 4 on the whole sample; four stale errno values (ENOMEM, ERANGE, EINTR, EAGAIN) on a quarter each
+        passes = [('LV_DEBUG_LEVEL=4', {'LV_DEBUG_LEVEL': '4'}, 0, 1)]
+        if not getattr(chk, 'env_debug_pass', True):
+            passes = []
+        passes += [('LV_ERRNO=%d' % e, {'LV_ERRNO': str(e)}, i, 4) for i, e in enumerate([12, 34, 4, 11])]
+        cov['env_passes'] = []
+        for (tag, env, off, stride) in passes:
+            sel = list(range(off, len(sub), stride))
+            if stride > 1:
+                sel = sorted(set(sel + list(range(0, min(ncorpus, len(sub))))))     # the corpus under every errno
+            psub = [sub[j] for j in sel]
+            ppath = spath + '.%s' % off
+            with open(ppath, 'w') as f:
+                for c in psub:
+                    f.write(c + '\n')
+            eo, ed = run_cases(impl_exe, ppath, len(psub), env=env, timeout_per_run=chk.case_timeout,
+                               stderr_file=os.path.join(work, 'stderr-env-%d.txt' % os.getpid()))
+            sub_m = [mouts[idx[j]] for j in sel]
+            n_sub = len(psub)
+            cut = ed.get('truncated_at')
+            if cut is not None:
+                n_sub = cut
+            edis = [d for d in compare(chk, psub[:n_sub], sub_m[:n_sub], eo[:n_sub])
+                    if not ('LV_DEBUG_LEVEL' in env and assert_by_design(d['impl']))]
+            for d in edis:
+                d['case_env'] = env
+                d['msg'] = '[%s] %s' % (tag, d['msg'])
+            dis += edis
+            cov['env_passes'].append(dict(env=tag, cases=n_sub, disagreements=len(edis)))
+            try:
+                os.remove(ppath)
+            except OSError:
+                pass
+        for f in (spath, os.path.join(work, 'stderr-env-%d.txt' % os.getpid())):
+            try:
+                os.remove(f)
+            except OSError:
+                pass
     extra = chk.extra_steps(ctx)
     for (lvl, case, msg) in extra:
         dis.append(dict(level=lvl, k=-1, case=case, model=None, impl=None, msg=msg))
@@ -728,7 +812,7 @@ def run_check(chk, argv):
         a_dis.sort(key=lambda d: len(d['case']))
         d = a_dis[0]
         p = write_replay(chk.id, 'A', dict(kind='failing-input', case=d['case'], model=d['model'], impl=d['impl'],
-                                           msg=d['msg'], others=[x['case'] for x in a_dis[1:20]],
+                                           msg=d['msg'], env=d.get('case_env'), others=[x['case'] for x in a_dis[1:20]],
                                            broken_theorem=proof_broken))
         violations.append((p, ''))
         return finish()
